@@ -338,7 +338,7 @@ func main() {
 	}
 	timeout := "20m"
 	if tier == "thorough" {
-		timeout = "120m"
+		timeout = "240m"
 	}
 
 	var extraOut string
